@@ -90,3 +90,22 @@ func TestRaceSenBytes(t *testing.T) {
 	}
 	wg.Wait()
 }
+
+// TestRaceInventory: every object callers may share (asm.Plan: next test), every read-only entry point,
+// 8 goroutines on their own data.
+func TestRaceInventory(t *testing.T) {
+	seed, _ := raceParams()
+	InventoryStress(seed, 8, 2, func(kind string) bool { return kind != "asm.Plan" }, nil, func(fd lib.Finding) {
+		t.Errorf("%s: %s", fd.Class, fd.What)
+	})
+}
+
+// TestRaceInventoryPlan: one compiled asm.Plan executed by 8 goroutines on their own roots.
+func TestRaceInventoryPlan(t *testing.T) {
+	seed, _ := raceParams()
+	InventoryStress(seed, 8, 2, func(kind string) bool { return kind == "asm.Plan" }, nil, func(fd lib.Finding) {
+		if fd.Class != "shared-object-written:stress:asm.Plan" { // decided by the deterministic oracle (known: lazy compile)
+			t.Errorf("%s: %s", fd.Class, fd.What)
+		}
+	})
+}
